@@ -537,6 +537,17 @@ def sandwich_cases():
                 for w1, w2 in pairs:
                     out.append({'cls': cls, 'max_size': ms, 'on_miss': False, 'prefill': prefill,
                                 'programs': [[rd], [w1, w2]]})
+        # two whole operations of the other thread in each window (the key's entry is recycled for another key and
+        # again for a third before the key comes back)
+        for ms, prefill in ((1, [['a', 0]]), (2, [['a', 0], ['b', 1]])):
+            for rd in readers[:6]:
+                for quad in ([['set', 'c', 5], ['set', 'd', 6], ['set', 'e', 7], ['set', 'a', 8]],
+                             [['set', 'c', 5], ['set', 'a', 6], ['set', 'd', 7], ['set', 'a', 8]],
+                             [['del', 'a'], ['set', 'c', 5], ['clear'], ['set', 'a', 8]],
+                             [['update', [['c', 5], ['d', 6]]], ['pop', 'c', None], ['set', 'a', 8], ['setdefault', 'e', 9]]):
+                    for windows in ([2, 2], [1, 3], [3, 1]):
+                        out.append({'cls': cls, 'max_size': ms, 'on_miss': False, 'prefill': prefill,
+                                    'programs': [[rd], quad], 'windows': windows})
     return out
 
 
@@ -562,7 +573,8 @@ def explore_sandwich(ctx, case, label, cap):
         if ctx.out_of_time():
             st.notes.append('%s: sandwich sweep cut short' % label)
             return
-        script = [[0, i], [1, 'op'], [0, j - i], [1, 'op'], [0, 'end']]
+        k1, k2 = case.get('windows', [1, 1])
+        script = [[0, i]] + [[1, 'op']] * k1 + [[0, j - i]] + [[1, 'op']] * k2 + [[0, 'end']]
         kind, detail, sc2 = judge(case, 0, [], st, script=script)
         st.evaluations += 1
         if sc2 is not None and len(sc2.made) >= 3:
